@@ -1,7 +1,7 @@
 ------------------------------ MODULE MC_Expr ------------------------------
 (***************************************************************************)
 (* Families of expressions for the evaluation properties (C01, C15, C18,   *)
-(* C05, C09 ...): instantiations of the derivation machine Gen, the        *)
+(* C05, C06, C09 ...): instantiations of the derivation machine Gen, the   *)
 (* environment values each member ranges over, and the emission of cases:  *)
 (* for every complete expression and every environment assignment of the   *)
 (* members it mentions, the outcome the language definition assigns.       *)
@@ -16,6 +16,8 @@ CONSTANTS Family, EmitMode
 L(e, ty) == [e |-> e, ty |-> ty]
 Mem(name) == L(NId(name), MemberType[name])
 Ints(S) == {L(NInt(i), "int") : i \in S}
+Strs(S) == {L(NStr(s), "string") : s \in S}
+Neg1 == L(NUn("-", NInt(1)), "int")
 
 (* values each environment member ranges over *)
 ObjA == Obj("Obj", [N |-> IntV(3), Name |-> Str("ab"), Next |-> PtrNil("Obj"), Tags |-> Arr("string", <<Str("x"), Str("y")>>)])
@@ -56,21 +58,22 @@ Assignments(ms) ==
 
 CmpOps == {"==", "!=", "<", "<=", ">", ">="}
 AllBuiltins == {"all", "none", "any", "one", "count", "filter", "map"}
-None == {}
+Pr(name, ns) == [name |-> name, ns |-> ns]
 
 F_Leaves ==
   CASE Family = "arith"  -> Ints({0, 1, 2, 7}) \cup {L(NFloat("0.5", 1, 1), "float64"), L(NFloat("2.0", 2, 0), "float64"),
                               Mem("I"), Mem("J"), Mem("F"), Mem("I64"), Mem("U8"), Mem("F32"), Mem("Any")}
     [] Family = "logic"  -> Ints({1, 2}) \cup {L(NBool(TRUE), "bool"), L(NBool(FALSE), "bool"), L(NNil, "nil"),
                               Mem("B"), Mem("C"), Mem("I"), Mem("Any"), Mem("S"), Mem("P")}
-    [] Family = "string" -> {L(NStr("a"), "string"), L(NStr("abc"), "string"), L(NStr("^ab"), "string"), L(NStr("c$"), "string"),
-                              L(NStr("("), "string"), Mem("S"), Mem("T"), Mem("Any")} \cup Ints({0, 1, 5})
-    [] Family = "coll"   -> Ints({0, 1, 2, 4}) \cup {L(NInt(-1), "int"), L(NStr("a"), "string"), L(NStr("z"), "string"), L(NStr("N"), "string"), L(NNil, "nil"),
+    [] Family = "string" -> Strs({"a", "abc", "^ab", "c$", "("}) \cup {Mem("S"), Mem("T"), Mem("Any")} \cup Ints({0, 1, 5})
+    [] Family = "coll"   -> Ints({0, 1, 2, 4}) \cup Strs({"a", "z", "N"}) \cup {Neg1, L(NNil, "nil"),
                               Mem("Xs"), Mem("Ss"), Mem("Anys"), Mem("M"), Mem("MA"), Mem("S"), Mem("I"), Mem("O"), Mem("P"), Mem("Any")}
-    [] Family = "access" -> Ints({1, 2}) \cup {L(NStr("a"), "string"), Mem("O"), Mem("P"), Mem("Os"), Mem("Ps"), Mem("I"), Mem("S"), Mem("Xs"), Mem("Anys"), Mem("F")}
-    [] Family = "builtin" -> Ints({0, 1, 2}) \cup {Mem("Xs"), Mem("Ys"), Mem("I"), Mem("Os"), Mem("Ss"), L(NStr("a"), "string")}
+    [] Family = "access" -> Ints({1, 2}) \cup Strs({"a"}) \cup {Mem("O"), Mem("P"), Mem("Os"), Mem("Ps"), Mem("I"), Mem("S"), Mem("Xs"), Mem("Anys"), Mem("F")}
+    [] Family = "builtin" -> Ints({0, 1, 2}) \cup Strs({"a"}) \cup {Mem("Xs"), Mem("Ys"), Mem("I"), Mem("Os"), Mem("Ss")}
     [] Family = "mixed"  -> Ints({0, 1, 3}) \cup {L(NBool(TRUE), "bool"), L(NStr("ab"), "string"), L(NNil, "nil"), L(NFloat("1.5", 3, 1), "float64"),
                               Mem("I"), Mem("B"), Mem("S"), Mem("Xs"), Mem("F"), Mem("O"), Mem("P"), Mem("M"), Mem("Any")}
+    [] Family = "alloc"  -> Ints({0, 1, 3}) \cup {Mem("I"), Mem("J"), Mem("Xs")}
+    [] Family = "order"  -> Ints({0, 1, 2}) \cup {Mem("Xs"), Mem("I"), Mem("F"), Mem("S"), Mem("I64")}
 
 F_UnOps ==
   CASE Family = "arith" -> {"-", "+"}
@@ -87,54 +90,59 @@ F_BinOps ==
     [] Family = "access" -> {"+", "=="}
     [] Family = "builtin" -> {">", "==", "+", "and", "%", ".."}
     [] Family = "mixed"  -> {"+", "*", "/", "==", "<", "and", "or", "in", ".."}
+    [] Family = "alloc"  -> {"..", "+"}
+    [] Family = "order"  -> {"in", "not in", ".."}
 
 F_Props ==
-  CASE Family = "access" -> {[name |-> "N", ns |-> FALSE], [name |-> "N", ns |-> TRUE], [name |-> "Next", ns |-> FALSE],
-                             [name |-> "Next", ns |-> TRUE], [name |-> "Name", ns |-> FALSE], [name |-> "Tags", ns |-> TRUE]}
-    [] Family = "builtin" -> {[name |-> "N", ns |-> FALSE]}
-    [] Family = "mixed" -> {[name |-> "N", ns |-> FALSE], [name |-> "Next", ns |-> TRUE], [name |-> "a", ns |-> FALSE]}
-    [] Family = "coll" -> {[name |-> "a", ns |-> FALSE], [name |-> "z", ns |-> FALSE]}
+  CASE Family = "access" -> {Pr("N", FALSE), Pr("N", TRUE), Pr("Next", FALSE), Pr("Next", TRUE), Pr("Name", FALSE), Pr("Tags", TRUE)}
+    [] Family = "builtin" -> {Pr("N", FALSE)}
+    [] Family = "mixed" -> {Pr("N", FALSE), Pr("Next", TRUE), Pr("a", FALSE)}
+    [] Family = "coll" -> {Pr("a", FALSE), Pr("z", FALSE)}
     [] OTHER -> {}
 
 F_Meths ==
-  CASE Family = "access" -> {[name |-> "GetN", ns |-> FALSE], [name |-> "Bump", ns |-> FALSE], [name |-> "GetN", ns |-> TRUE]}
+  CASE Family = "access" -> {Pr("GetN", FALSE), Pr("Bump", FALSE), Pr("GetN", TRUE)}
     [] OTHER -> {}
 
 F_Funcs ==
-  CASE Family = "access" -> {"Id", "Add", "IsPos", "Cat", "Half", "Sum", "Len3", "AnyId", "Boom", "NilFn", "Twice", "I8Id"}
+  CASE Family = "access" -> {"Id", "Add", "IsPos", "Cat", "Half", "Sum", "Len3", "AnyId", "Boom", "NilFn", "Twice", "I8Id", "Var"}
     [] Family = "arith"  -> {"Id", "Half"}
     [] Family = "logic"  -> {"IsPos", "Boom"}
     [] Family = "builtin" -> {"Id", "IsPos", "Sum"}
     [] Family = "mixed"  -> {"Id", "Add", "Half"}
+    [] Family = "order"  -> {"Id", "Twice"}
     [] OTHER -> {}
 
 F_Builtins ==
   CASE Family = "builtin" -> AllBuiltins
     [] Family = "mixed" -> {"filter", "any", "map", "count"}
+    [] Family = "alloc" -> {"map", "filter", "count"}
     [] OTHER -> {}
 
-F_UseLen  == Family \in {"string", "coll", "builtin", "mixed"}
+F_UseLen  == Family \in {"string", "coll", "builtin", "mixed", "alloc"}
 F_UseCond == Family \in {"logic", "mixed", "builtin"}
 F_UseIdx  == Family \in {"coll", "access", "string", "mixed", "builtin"}
-F_SliceShapes == CASE Family \in {"coll", "string"} -> {"ft", "f", "t", "n"} [] Family = "mixed" -> {"f", "ft"} [] OTHER -> {}
-F_ArrLens == CASE Family \in {"coll", "mixed"} -> {0, 1, 2} [] Family = "builtin" -> {2} [] OTHER -> {}
-F_MapLens == CASE Family = "coll" -> {0, 1, 2} [] Family = "mixed" -> {1} [] OTHER -> {}
-F_ElemLeaves == Family \in {"builtin", "mixed"}
+F_SliceShapes == CASE Family \in {"coll", "string"} -> {"ft", "f", "t", "n"} [] Family = "mixed" -> {"f", "ft"}
+                   [] Family = "order" -> {"ft", "f", "t"} [] OTHER -> {}
+F_ArrLens == CASE Family \in {"coll", "mixed", "alloc"} -> {0, 1, 2} [] Family = "builtin" -> {2} [] OTHER -> {}
+F_MapLens == CASE Family = "coll" -> {0, 1, 2} [] Family \in {"mixed", "alloc"} -> {1} [] OTHER -> {}
+F_ElemLeaves == Family \in {"builtin", "mixed", "alloc"}
 F_OrderGuard == Family # "order"
 
 (* Constructs whose outcome on the pinned tree is a catalogued deviation     *)
 (* (DESIGN.md appendix C) are left to the dedicated families that carry the  *)
-(* deviation's prediction; here both operands must have kinds on which the   *)
-(* reference rank and the implemented rank agree, sequences are compared     *)
-(* only with sequences of the same Go type, `in` takes no range literal on   *)
-(* the right (inRange), and no slice has calls in both bounds.               *)
+(* deviation's prediction ("order", "alloc"); elsewhere both operands must   *)
+(* have kinds on which the reference rank and the implemented rank agree,    *)
+(* sequences are compared only with sequences of the same Go type, `in`      *)
+(* takes no range on the right (inRange rewrite), and no slice has calls in  *)
+(* both bounds.                                                              *)
 RankAgree(a, b) == (a \in NumKinds /\ b \in NumKinds) => Higher(a, b, {}) = Higher(a, b, {"Dev_RankIntBelowInt8"})
 F_Guard(op, l, r, s) ==
   /\ RankAgree(l.ty, r.ty)
   /\ (op \in {"==", "!="} /\ (IsSliceT(l.ty) \/ IsSliceT(r.ty) \/ IsMapTy(l.ty) \/ IsMapTy(r.ty))
         => (r.e.k = "nil" \/ l.e.k = "nil" \/ (l.e.k = "id" /\ r.e.k = "id" /\ l.ty = r.ty)))
   /\ (op \in {"==", "!="} => ~(l.ty = "any" /\ (IsSliceT(r.ty) \/ IsMapTy(r.ty))) /\ ~(r.ty = "any" /\ (IsSliceT(l.ty) \/ IsMapTy(l.ty))))
-  /\ (op \in {"in", "not in"} => r.e.k # "bin")
+  /\ (op \in {"in", "not in"} /\ Family # "order" => r.e.k # "bin")
   /\ (op \in {"in", "not in"} /\ r.e.k = "arr" => ~IsSliceT(l.ty) /\ ~IsMapTy(l.ty))
   /\ (op = ".." => l.ty # "any" /\ r.ty # "any")
 
@@ -148,17 +156,22 @@ Spec == Init /\ [][Next]_gvars
 (* emitted next to the reference outcome when the two differ, so that a      *)
 (* failing real execution is attributed to a known finding mechanically.     *)
 F_Devs == CASE Family \in {"coll", "mixed"} -> {"Dev_InArrayStringUntyped"}
-            [] Family = "order" -> {"Dev_SliceToBeforeFrom", "Dev_InRangeDuplicatesLeft", "Dev_InRangeUntyped"}
+            [] Family = "order" -> {"Dev_SliceToBeforeFrom", "Dev_InRangeRewrite"}
+            [] Family = "alloc" -> {"Dev_RangeSizeSigned"}
             [] OTHER -> {}
 
-RunOf(t, asg) ==
+(* memory budgets each run is repeated under (C06); 0 stands for the default *)
+F_Budgets == CASE Family = "alloc" -> 1..7 [] OTHER -> {0}
+
+RunOf(t, asg, b) ==
   LET rho == EnvOf(asg)
-      exp == Outcome(t, rho, DefaultBudget, {})
-      dvs == {d \in F_Devs : Outcome(t, rho, DefaultBudget, {d}) # exp}
-  IN [env |-> asg, exp |-> exp, dev |-> [d \in dvs |-> Outcome(t, rho, DefaultBudget, {d})]]
+      L == IF b = 0 THEN DefaultBudget ELSE b
+      exp == Outcome(t, rho, L, {})
+      dvs == {d \in F_Devs : Outcome(t, rho, L, {d}) # exp}
+  IN [env |-> asg, budget |-> L, exp |-> exp, dev |-> [d \in dvs |-> Outcome(t, rho, L, {d})]]
 
 Runs(t) ==
-  LET rs == {RunOf(t, asg) : asg \in Assignments(Mentions(t))}
+  LET rs == {RunOf(t, asg, b) : asg \in Assignments(Mentions(t)), b \in F_Budgets}
   IN {r \in rs : r.exp.ok \/ r.exp.c # "outside"}
 
 Case == [src |-> Src(Tree), ty |-> TreeTy, n |-> n, cdz |-> HasConstDivZero(Tree), cbp |-> HasConstBadPattern(Tree), runs |-> Runs(Tree)]
